@@ -142,8 +142,12 @@ def run(ctx, res):
         inner = [x for x in walk(bufarg) if x["k"] == "CallExpr" and x.get("callee") == "ubuf_data"]
         bname = canon(call_args(inner[0])[0]) if inner else None
         apps = [e for e in evs[:evs.index(mk[0])] if e.a in ("ubuf_append", "ubuf_add_cstr") and canon(call_args(e.node)[0]) == bname]
-        first = canon(call_args(apps[0].node)[1]) if apps else None
-        res.check(first == "s->opt.tmp_dname", "C06.R3", site(wc, "template-dir"), "the temp file template starts with the configured directory",
+        # decided on the value appended first (the code may sit in a helper that is handed the directory)
+        bval = strip_tags(APE.vstr(mk[0].b[0])) if mk[0].b else None
+        apps = [e for e in evs[:evs.index(mk[0])] if e.a in ("ubuf_append", "ubuf_add_cstr") and e.b and
+                bval is not None and ("ubuf_data(%s)" % strip_tags(APE.vstr(e.b[0]))) in bval] or apps
+        first = strip_tags(APE.vstr(apps[0].b[1])) if apps else None
+        res.check(first is not None and re.sub(r"^\(.*?\)", "", first).endswith("s->opt.tmp_dname"), "C06.R3", site(wc, "template-dir"), "the temp file template starts with the configured directory",
                   "the temp file template starts with %s, not the configured temporary directory" % first, wc.loc(mk[0].node), p.describe(wc))
         # no absolute path component after the directory: second append is the local template beginning with "/."
         ul = [e for e in evs[evs.index(mk[0]):] if e.a == "unlink"]
@@ -164,10 +168,24 @@ def run(ctx, res):
         [canon(a) for a in call_args(bc[0])] == ["a->data", "a->len_key", "b->data", "b->len_key"]
     res.check(okc, "C06.R4", site(cmpf, "keys-only"), "chunk order = key comparison (a, b), passed through unchanged",
               "_mtbl_sorter_compare is not the plain key comparison: %s" % ([canon(a) for a in call_args(bc[0])] if bc else None), cmpf.loc(cmpf.body))
-    qs = wc.calls("qsort")
-    okq = len(qs) == 1 and canon(call_args(qs[0])[3]) == cmpf.name and canon(call_args(qs[0])[1]) == "entry_vec_size(b->entries)"
-    loops = [n for n in walk(wc.body) if n["k"] == "ForStmt"]
-    res.check(okq and loops and qs[0]["line"] < loops[0]["line"], "C06.R4", site(wc, "sort-first"), "the whole batch is sorted by key before the fold loop",
+    # the whole batch is sorted, by key, before the first entry is written: on every path that writes
+    okq = True
+    nq = 0
+    for p in ev.paths:
+        calls_ = [e for e in p.events if e.kind == "call"]
+        wr = [i for i, e in enumerate(calls_) if e.a == "mtbl_writer_add"]
+        if not wr:
+            continue
+        nq += 1
+        qs_ = [i for i, e in enumerate(calls_) if e.a == "qsort"]
+        good = len(qs_) == 1 and qs_[0] < wr[0]
+        if good:
+            q = calls_[qs_[0]]
+            good = strip_tags(APE.vstr(q.b[3])).lstrip("&") == cmpf.name and \
+                re.match(r"^entry_vec_size\(b->entries\)$", strip_tags(APE.vstr(q.b[1]))) is not None and \
+                re.match(r"^entry_vec_data\(b->entries\)$", strip_tags(APE.vstr(q.b[0]))) is not None
+        okq = okq and good
+    res.check(okq and nq > 0, "C06.R4", site(wc, "sort-first"), "the whole batch is sorted by key before the fold loop",
               "the batch is not sorted (all of it, by key) before entries are written", wc.loc(wc.body))
     for p in ev.paths:
         evs = list(p.events)
